@@ -221,15 +221,15 @@ func vhCheckLine(line []byte) {
 		}
 	} else {
 		vhAssert(err == io.EOF || err == io.ErrUnexpectedEOF, "otherwise the reader asks for more input")
-		if ref.state == vhBlockC || ref.state == vhBlockStar || ref.state == vhRaw || ref.depth > 0 {
-			// fine: the construct continues on the next line
-		}
+		complete := (ref.state == vhCode || ref.state == vhLineC) && ref.depth == 0 && !ref.lastOp &&
+			(ref.lastPlusMinus == 0 || ref.lastPlusMinus == 2 || ref.lastPlusMinus == -2)
+		vhAssert(!complete, "a line that closes every construct it opens, and does not end in an operator, ends the chunk")
 	}
 }
 
 // prefixes that put the reader into each mode / bracket depth
 var vhPrefixes = []string{"", "x", "(", "((x", "'", "'\\", "\"", "\"\\", "`", "/", "//", "/*", "/* *", "~", "#", "x+", "x-", "x++", "x +", "a,", ")", "x /", "#!", "x = y *", "f(a,"}
-var vhSuffixes = []string{"", "x", ")", "*/", "'", "\"", "`", " "}
+var vhSuffixes = []string{"", "x", ")", "*/", "'", "\"", "`", " ", "/", "\\\""}
 
 func vhLineOf(prefix string, mid []byte, suffix string) []byte {
 	line := make([]byte, 0, len(prefix)+len(mid)+len(suffix)+1)
